@@ -548,6 +548,19 @@ def answer (line : String) : String :=
         | .err e => s!"{errCode e}\t{errCode e}"
         | .panic => "panic"
       | none => "bad"
+    | "dirv" => match arg 0 with
+      | some v =>
+        match LangId.fromBytes v with
+        | .ok x =>
+          let y := x.setVariants [[49, 57, 57, 54], [109, 97, 99, 111, 115]]
+          let one (likely : Bool) : String :=
+            match LangId.direction likely Gen.tables Gen.layout x, LangId.direction likely Gen.tables Gen.layout y with
+            | .ok d, .ok e => s!"ok {dirName d} {dirName e}"
+            | _, _ => "panic"
+          s!"{one true}\t{one false}"
+        | .err e => s!"{errCode e}\t{errCode e}"
+        | .panic => "panic"
+      | none => "bad"
     | "locdir" => match arg 0 with
       | some v =>
         match Locale.fromBytes v with
